@@ -77,6 +77,9 @@ type Env struct {
 	Family *canvas.FontFamily
 	// Paints are paint objects shared by all tasks' drawings (created once per phase).
 	Paints []interface{}
+	// Faces are font faces (of the shared fonts) shared by all tasks' texts; created on first use in
+	// the reference phase, up front in the simulation phase.
+	Faces  [3]*canvas.FontFace
 	NoName []bool
 }
 
@@ -167,6 +170,11 @@ func NewEnv(resources, fontDir string, names []string, lazy bool) (*Env, error) 
 				return nil, err
 			}
 		}
+		if len(names) > 0 {
+			for k := range e.Faces {
+				e.Face(k + 1)
+			}
+		}
 	}
 	return e, nil
 }
@@ -195,6 +203,23 @@ func (e *Env) Font(i int) *canvas.Font {
 		}
 	}
 	return e.Shared[i]
+}
+
+// Face returns shared face k (1-based).
+func (e *Env) Face(k int) *canvas.FontFace {
+	k = (k - 1) % len(e.Faces)
+	if e.Faces[k] == nil {
+		switch k {
+		case 0:
+			e.Faces[k] = e.Font(0).Face(12, color.Black)
+		case 1:
+			e.Faces[k] = e.Font(1).Face(10, color.RGBA{0, 0, 120, 255}, canvas.FontUnderline)
+		default:
+			e.Faces[k] = e.Font(0).Face(24, color.RGBA{120, 0, 0, 255})
+			e.Faces[k].FauxBold = 0.02
+		}
+	}
+	return e.Faces[k]
 }
 
 // ---- building inputs ------------------------------------------------------------------------
@@ -736,6 +761,9 @@ func geometryOp(st *Step, a, b *canvas.Path) Result {
 }
 
 func stepFace(env *Env, st *Step) *canvas.FontFace {
+	if st.SharedFace > 0 {
+		return env.Face(st.SharedFace)
+	}
 	f := env.Font(st.Font)
 	face := f.Face(st.Size, color.RGBA{0, 0, uint8(40 * st.Style), 255}, decos[st.Deco%len(decos)]...)
 	// faux styles and variants as FontFamily.Face would set them for a family with one regular font
@@ -849,6 +877,9 @@ func drawCanvas(env *Env, d *Drawing) *canvas.Canvas {
 			face := f.Face(it.Size, color.RGBA{it.Fill[0], it.Fill[1], it.Fill[2], 255}, decos[it.Deco%len(decos)]...)
 			if it.Style%2 == 1 {
 				face.FauxBold = 0.02
+			}
+			if it.SharedFace > 0 {
+				face = env.Face(it.SharedFace)
 			}
 			ctx.DrawText(it.X, it.Y+10, canvas.NewTextLine(face, it.Text, canvas.Left))
 		}
